@@ -43,9 +43,11 @@ REQUIRED = {"occurrence_checks": 1500, "pairs_checked": 300, "template_borne_che
             "tag_timeline": 100}
 LEVEL_TEXT = ("Exploration: 3e4 (quick) / 2e6 (thorough) generated (tag, body, context) documents parsed by the real "
               "parser (with a template database so that template-argument contexts expand); the observer compares what "
-              "lies between two sentinel words with the written body.")
-LEVEL_NOTE = "Bodies are generated, not exhaustive; the contexts are the nine listed."
-TECHNIQUE = "tree-vs-written-body runtime monitor with sentinels over generated (tag, body, context) triples; round-trip law on the uniquifier"
+              "lies between two sentinel words with the written body; an adjacency/multiplicity shard glues a region to "
+              "each of 37 lexemes, passes it to templates using their argument 2-3 times and nests it in <ref>, and "
+              "checks that each body reaches the tree exactly as often as written and that no protection marker leaks.")
+LEVEL_NOTE = "Bodies are generated, not exhaustive; the contexts are the nine listed plus the adjacency shapes."
+TECHNIQUE = "tree-vs-written-body runtime monitor with sentinels over generated (tag, body, context) triples; occurrence-count and marker-leak monitor over adjacency shapes; round-trip law on the uniquifier"
 
 BODY_ATOMS = ["{{t}}", "{{{1}}}", "{{{1|d}}}", "[[Link]]", "[[A|b]]", "<b>q</b>", "<i>", "</i>", "<!-- c -->", "<!--", "-->",
               "<noinclude>NI</noinclude>", "<includeonly>IO</includeonly>", "<onlyinclude>OI</onlyinclude>", "</noinclude>",
